@@ -75,7 +75,7 @@ def directDeps (db : Db) (p : Prod) (expand : Bool) : Except Err (List Prod) :=
   if expand then
     if db.tableMissing p then .error .tableError
     else match depsOf db db.fuel [] p false 0 St.empty with
-      | none => .error .outOfFuel         -- only in an unsetup branch
+      | none => .error .outOfFuel         -- never (`directDeps_not_fuel`); before the D32 repair: an unsetup line inside a cycle
       | some r => .ok (p :: r.1.map (·.prod))
   else .ok [p]
 
